@@ -2805,6 +2805,7 @@ impl Database {
                     crate::sql::predicate::CompiledPredicate::with_column_map_ref(expr, &join_column_map)
                 });
 
+                let mut same_side_keys: Vec<(usize, usize)> = Vec::new();
                 let key_indices: Vec<(usize, usize)> = join_keys
                     .iter()
                     .filter_map(|(expr_a, expr_b)| {
@@ -2848,10 +2849,23 @@ impl Database {
                         match (a_is_left, b_is_left) {
                             (true, false) => Some((idx_a, idx_b)),
                             (false, true) => Some((idx_b, idx_a)),
-                            _ => None,
+                            _ => {
+                                // both columns come from the same input: not a hash key, but
+                                // still part of the join condition
+                                same_side_keys.push((idx_a, idx_b));
+                                None
+                            }
                         }
                     })
                     .collect();
+                let same_side_ok = |combined: &[OwnedValue]| {
+                    same_side_keys.iter().all(|&(i, j)| match (combined.get(i), combined.get(j)) {
+                        (Some(a), Some(b)) => {
+                            crate::database::query::owned_values_equal_with_coercion(a, b)
+                        }
+                        _ => false,
+                    })
+                };
 
                 let limit_info = find_limit(physical_plan.root);
                 let offset = limit_info.and_then(|(_, o)| o).unwrap_or(0) as usize;
@@ -3078,6 +3092,10 @@ impl Database {
                                     combined_buf.extend(left_row.iter().cloned());
                                     combined_buf.extend(right_row.iter().cloned());
 
+                                    if !same_side_ok(&combined_buf) {
+                                        continue;
+                                    }
+
                                     let passes_where = if let Some(ref pred) = where_predicate {
                                         let values: smallvec::SmallVec<[Value<'_>; 16]> =
                                             combined_buf.iter().map(|v| v.to_value()).collect();
@@ -3162,7 +3180,7 @@ impl Database {
                                     true
                                 };
 
-                                if !should_include {
+                                if !should_include || !same_side_ok(&combined_buf) {
                                     continue;
                                 }
 
